@@ -14,6 +14,7 @@ import WtVerif.Lemmas.Worker
 import WtVerif.Lemmas.Ids
 import WtVerif.Spec.H3
 import WtVerif.Props.C04
+import WtVerif.Lemmas.QpackBound
 
 namespace Props.C11
 open Varint
@@ -256,5 +257,15 @@ theorem qpack_string_bounded (n : Nat) (bs s rest : Bytes) (h : Qpack.decodeStri
 example : Qpack.decodeInt 8 ([0xff] ++ List.replicate 10 0x80 ++ [0x01]) = .error .integerOverflow := by rfl
 example : Spec.prefixInt 8 ([0xff] ++ List.replicate 10 0x80 ++ [0x01]) = some (255 + 2^70, []) := by decide
 example : Qpack.decodeInt 6 [0xff, 0x22] = .ok (3, 97, []) := by rfl
+
+/-- **Bounded output**: whatever bytes arrive, a field section the decoder accepts yields a header
+map whose names and values together are at most 84 times as long as the input (one static-table
+row of at most 76 bytes per line, eight symbols per Huffman-coded byte): no amplification beyond a
+constant factor, and frames (hence sections) are at most 4096 bytes (`frame_invariants`). -/
+theorem qpack_output_bounded (bs : Bytes) (m : List Qpack.Field) (h : Qpack.decode bs = .ok m) :
+    Qpack.total m ≤ 84 * bs.length := by
+  have := Qpack.decode_bound h
+  rw [Qpack.maxRow_value] at this
+  exact this
 
 end Props.C11
